@@ -335,6 +335,15 @@ class MetadataManager:
                 self.storage.write_file_cas(self.HINT_PATH, content, hint_etag)
                 return
             except CASConflictError as e:
+                # A precondition failure normally means another committer won.
+                # It is also what the SDK reports when OUR conditional PUT was
+                # applied, its response got lost, and the automatic retry then
+                # found the object changed - by ourselves. The metadata file
+                # name is unique to this attempt, so a hint naming it can only
+                # be our own write: the commit happened. Treating it as a
+                # conflict would retry on top of it and apply the change twice.
+                if self._hint_names(metadata_file):
+                    return
                 raise ConcurrentModificationException(
                     "Version hint changed under us (CAS conflict); retrying"
                 ) from e
@@ -352,6 +361,17 @@ class MetadataManager:
             raise AmbiguousCommitError(
                 f"Version hint write failed ambiguously: {e}"
             ) from e
+
+    def _hint_names(self, metadata_file: str) -> bool:
+        """True if the version hint currently names exactly this metadata file.
+
+        Best effort: any failure to read the hint counts as "no".
+        """
+        try:
+            parsed = self._read_version_hint()
+        except Exception:
+            return False
+        return parsed is not None and parsed[1] == metadata_file
 
     def _release_lock_safely(self) -> None:
         """Release the distributed lock without ever raising."""
